@@ -479,6 +479,8 @@ def run_property(mod, prop, tier, seed, replay=None):
         from harness import py2lean
         if prop in py2lean.GROUPS:
             rep = py2lean.generate(prop)
+            for dep in py2lean.DEPENDS.get(prop, []):
+                rep.update(py2lean.generate(dep))
             ctx.stats["translated_functions"] = sum(1 for r in rep.values() if r["status"] == "translated")
             for name, r in rep.items():
                 if r["status"] != "translated":
